@@ -411,6 +411,16 @@ def run(tier):
             ev.sample({"kind": "data-reader-history", "calls": calls, "ops": ops}, limit=8)
     ev.add("graph_paths", len(paths))
 
+    # ---- a stream that failed, asked again: every file of the twin image (b, d: undecodable blocks, e: fragment index beyond the table) ----
+    timg = sqfsimg.load(twin)
+    tops = ["S %d" % ((i["ref"][0] << 16) | i["ref"][1]) for i in timg.inode_list if i["type"] == "file"] * 2
+    rc, recs, err, p = run_hist(binp, twin, tops, work, "retry")
+    replays += 1
+    for k, st in enumerate(x for x in recs if "i" in x):
+        if -7777 in (st["h"][0], st["f"][0]):
+            rep.violation("reader-stream-data-after-error", "twin image, call %d (%s): the file stream reports an error and, asked again, hands out bytes (stale buffer contents)"
+                          % (k + 1, st["op"]), artefact=p, data={"ops": tops[:k + 1]})
+            break
     # ---- random long histories over all reader APIs (differential) -------------------------------
     nrand = 40 if tier == "quick" else 400
     variants = [("valid", base)] + [(n, p) for (n, p, *_r) in scen[:2]]
@@ -431,7 +441,7 @@ def run(tier):
             elif k == 3:
                 ops.append("I %d" % r2.choice(refs + [12345, refs[-1] + 1, 1 << 40]))
             elif k == 4:
-                ops.append("D %d" % r2.choice(dirs + [refs[0]]))
+                ops.append(r2.choice(["D %d", "D %d", "E %d"]) % r2.choice(dirs + [refs[0]]))
             elif k == 5:
                 ops.append("P %s" % r2.choice(["d", "d/l0003", "small", "nonexistent", "d/l0399", "big/x", ""]))
             elif k in (6, 7):
@@ -444,7 +454,7 @@ def run(tier):
             elif k == 10:
                 ops.append("S %d" % r2.choice(files))
             else:
-                ops.append(r2.choice(["U 0", "U 3", "U 99", "X 0", "X 7"]))
+                ops.append(r2.choice(["U 0", "U 3", "U 99", "X 0", "X 7", "Y %d" % r2.randrange(1, 40), "Y 99999"]))
         return ops
 
     def dorand(i):
@@ -455,6 +465,7 @@ def run(tier):
         return i, nm, ops, rc, recs, err, p
 
     ndiff = 0
+    learned_reported = set()
     with ThreadPoolExecutor(max_workers=16) as ex:
         for i, nm, ops, rc, recs, err, p in ex.map(dorand, range(nrand)):
             replays += 1
@@ -466,6 +477,20 @@ def run(tier):
                 ev.add("harness_aborts_on_damaged_images(C05 territory)")
                 continue
             for k, st in enumerate(steps):
+                if st.get("learning"):
+                    # the reader with dot entries learns while it is used: it may refuse what it cannot know yet, but an answer it GIVES
+                    # is the one a reader that has seen the whole tree gives
+                    wrong = [w for w in ("h", "f") if st[w][0] == 0 and st[w] != st["o"]]
+                    if wrong and "learning" not in learned_reported:
+                        learned_reported.add("learning")
+                        rep.violation("reader-history-dot-entries", "image %s, call %d (%s) on the reader with dot entries %s answers %s, a reader that knows the whole tree answers %s"
+                                      % (nm, k + 1, st["op"], "after earlier calls" if wrong[0] == "h" else "freshly created", st[wrong[0]][:3], st["o"][:3]), artefact=p,
+                                      data={"image": nm, "ops": ops[:k + 1]})
+                    continue
+                if -7777 in (st["h"][0], st["f"][0]) and "retry" not in learned_reported:
+                    learned_reported.add("retry")
+                    rep.violation("reader-stream-data-after-error", "image %s, call %d (%s): the file stream reports an error and, asked again, hands out bytes"
+                                  % (nm, k + 1, st["op"]), artefact=p, data={"image": nm, "ops": ops[:k + 1]})
                 if st["h"] != st["f"]:
                     key = "reader-history-%s" % st["op"][0]
                     rep.violation(key, "image %s: call %d (%s) answers %s after the history but %s on fresh readers"
